@@ -471,6 +471,29 @@ func genWritesFor(prog *ssa.Program, by map[string]*packages.Package, names []st
 			rows = append(rows, writeRow{funcName(f), kind, or})
 		})
 	}
+	if ptrSlices {
+		// what exported functions hand out: a byte slice that is not freshly allocated is memory shared with the caller's
+		// arguments, the receiver or a package-level table
+		for _, f := range fns {
+			if f.Parent() != nil || f.Object() == nil || !f.Object().Exported() {
+				continue
+			}
+			res := f.Signature.Results()
+			for _, b := range f.Blocks {
+				for _, in := range b.Instrs {
+					r, ok := in.(*ssa.Return)
+					if !ok {
+						continue
+					}
+					for i := 0; i < res.Len(); i++ {
+						if isByteSlice(res.At(i).Type()) {
+							rows = append(rows, writeRow{funcName(f), fmt.Sprintf("return#%d", i), originOf(r.Results[i])})
+						}
+					}
+				}
+			}
+		}
+	}
 	var lines []string
 	for _, r := range rows {
 		var cs []string
